@@ -29,6 +29,8 @@ func init() {
 			"every resolver entry point runs authorizePreFetch before the loader, subscriptions are authorized before they are registered, and the batch gate fails closed on a decision-count mismatch; the collector descends into the same composite kinds as the renderer and the protected bit has one source. " +
 			"It does not decide 'no denied byte in any response' (value level).",
 		Mutants: []Mutant{
+			{Name: "subscription updates render with an unseeded decision cache (seeded change C14-21)", File: "v2/pkg/engine/resolve/resolve.go", Rule: "C14-R5", Key: "Resolver.executeSubscriptionUpdate/one-decision-object:renderer",
+				Old: "\tauthorization := NewFieldAuthorization(resolveCtx)\n\tresolvable.SetFieldAuthorization(authorization)\n", New: "\tauthorization := NewFieldAuthorization(resolveCtx)\n"},
 			{Name: "root field authorization rule looked up under the alias (seeded change C14-12)", File: "v2/pkg/engine/plan/path_builder_visitor.go", Rule: "C14-R4", Key: "addRootField/lookup-by-field-name",
 				Old: "\tfieldName := c.operation.FieldNameString(fieldRef)\n\tfieldHasAuthorizationRule := c.fieldHasAuthorizationRule(enclosingTypeName, fieldName)", New: "\tfieldName := c.operation.FieldAliasOrNameString(fieldRef)\n\tfieldHasAuthorizationRule := c.fieldHasAuthorizationRule(enclosingTypeName, fieldName)"},
 			{Name: "batch entity fetch loads even when the gate said no", File: loaderGo, Rule: "C14-R1", Key: "prepareBatchEntityFetch",
@@ -63,6 +65,7 @@ func runC14(r *fw.Run) {
 		r.Error("package resolve not loaded")
 		return
 	}
+	defer c14OneDecisionObjectPerRequest(r)
 	info := pk.TypesInfo
 
 	// ---- R1 no request without the gate -------------------------------------------------------
@@ -880,4 +883,79 @@ func mentionsCallNamed(info *types.Info, e ast.Expr, name string) bool {
 		return !found
 	})
 	return found
+}
+
+// c14OneDecisionObjectPerRequest (R5): the pre-fetch decisions are seeded into a FieldAuthorization object by
+// authorizePreFetch, consulted by the loader (gate in front of every fetch) and consulted again by the renderer
+// (authorizeField). All three must be the same object, or the renderer decides from an empty cache and — in pre-fetch mode
+// with no legacy authorizer — lets every denied nested field through. For each object a resolver entry point creates with
+// NewFieldAuthorization, the same variable is handed to Resolvable.SetFieldAuthorization, to NewLoader and is the receiver
+// of authorizePreFetch (the sibling entry points agree).
+func c14OneDecisionObjectPerRequest(r *fw.Run) {
+	p := r.Prog
+	r.Rule("C14-R5", "every FieldAuthorization a resolver entry point creates is the one object that receives authorizePreFetch, is given to the loader (NewLoader) and is given to the renderer (Resolvable.SetFieldAuthorization)")
+	n := 0
+	for _, fi := range p.Funcs("resolve") {
+		if fw.RecvName(recvTypeOrNil(fi.Obj)) == "Resolvable" {
+			continue // the renderer's lazy fallback for callers that wire nothing
+		}
+		info := fi.Info()
+		objs := map[types.Object]ast.Node{}
+		fw.WalkAll(fi.Decl.Body, func(nd ast.Node) bool {
+			as, ok := nd.(*ast.AssignStmt)
+			if !ok || len(as.Lhs) != 1 || len(as.Rhs) != 1 {
+				return true
+			}
+			c, isCall := ast.Unparen(as.Rhs[0]).(*ast.CallExpr)
+			if !isCall || !fw.CallIs(info, c, "resolve", "NewFieldAuthorization") {
+				return true
+			}
+			if id, isID := as.Lhs[0].(*ast.Ident); isID {
+				o := info.Defs[id]
+				if o == nil {
+					o = info.Uses[id]
+				}
+				if o != nil {
+					objs[o] = as
+				}
+			}
+			return true
+		})
+		for o, at := range objs {
+			uses := map[string]bool{}
+			isO := func(e ast.Expr) bool {
+				id, ok := ast.Unparen(e).(*ast.Ident)
+				return ok && info.Uses[id] == o
+			}
+			fw.WalkAll(fi.Decl.Body, func(nd ast.Node) bool {
+				c, ok := nd.(*ast.CallExpr)
+				if !ok {
+					return true
+				}
+				switch {
+				case fw.CallIs(info, c, "resolve", "Resolvable.SetFieldAuthorization"):
+					if len(c.Args) == 1 && isO(c.Args[0]) {
+						uses["renderer"] = true
+					}
+				case fw.CallIs(info, c, "resolve", "NewLoader"):
+					for _, a := range c.Args {
+						if isO(a) {
+							uses["loader"] = true
+						}
+					}
+				case fw.CallIs(info, c, "resolve", "FieldAuthorization.authorizePreFetch"):
+					if sel, isSel := ast.Unparen(c.Fun).(*ast.SelectorExpr); isSel && isO(sel.X) {
+						uses["seeded"] = true
+					}
+				}
+				return true
+			})
+			for _, role := range []string{"seeded", "loader", "renderer"} {
+				n++
+				r.Check(uses[role], "C14-R5", fi.Name()+"/one-decision-object:"+role, p.Pos(at.Pos()), "the FieldAuthorization created in "+fi.Name()+" is "+map[string]string{"seeded": "the receiver of authorizePreFetch", "loader": "handed to NewLoader", "renderer": "handed to Resolvable.SetFieldAuthorization"}[role],
+					"the decisions of this request live in an object that the "+role+" side never sees: the renderer (or the loader's gate) decides from an empty decision cache — in pre-fetch mode every denied nested field of this entry point is rendered with no error, while its sibling entry points null it")
+			}
+		}
+	}
+	r.Expect("C14-R5", "roles of per-request FieldAuthorization objects", n, 12)
 }
